@@ -156,5 +156,8 @@ func main() {
 		scenario("p3e1", params{producers: 3, events: 1}, vrt.Bounds{Dev: 1, Seconds: 90}, vrt.Bounds{Dev: 2, Seconds: 900}),
 		scenario("hold", params{producers: 2, events: 2, hold: true}, vrt.Bounds{Dev: 1, Seconds: 60}, vrt.Bounds{Dev: 2, Seconds: 300}),
 		scenario("batch205", params{producers: 1, events: 205}, vrt.Bounds{Dev: 0, Seconds: 60}, vrt.Bounds{Dev: 1, Seconds: 300}),
+		// more events than the writer's input channel holds (10000): the producer must block, not reorder or drop
+		scenario("burst10050", params{producers: 1, events: 10050}, vrt.Bounds{Dev: 0, Seconds: 120}, vrt.Bounds{Dev: 0, Seconds: 300}),
+		scenario("burst2x5010", params{producers: 2, events: 5010}, vrt.Bounds{Dev: 0, Seconds: 120}, vrt.Bounds{Dev: 0, Seconds: 300}),
 	})
 }
